@@ -673,3 +673,28 @@ fn c23_decode_key_nested_truncations() {
     }
 }
 }
+
+stubs! {
+//@ props=C26 kind=proof timeout=900
+/// vector keys (1 and 2 components, every f32 bit pattern except NaN): component order == key order and
+/// decode_key(encode_vector(v)) returns the same component bits — including -0.0
+#[kani::proof]
+#[kani::unwind(26)]
+fn c26_vector_component_order_inverse() {
+    let (x, y): (f32, f32) = (kani::any(), kani::any());
+    kani::assume(!x.is_nan() && !y.is_nan());
+    let (mut a, mut b) = (FixBuf::new(), FixBuf::new());
+    encode_vector(&[x], &mut a);
+    encode_vector(&[y], &mut b);
+    if x < y { assert!(lex(&a, &b) == Ordering::Less); }
+    if x > y { assert!(lex(&a, &b) == Ordering::Greater); }
+    pin(&mut a, type_prefix::VECTOR, 9);
+    // the dimension count bytes are constants written by the encoder: prove and pin them
+    assert!(a.b[1] == 0 && a.b[2] == 0 && a.b[3] == 0 && a.b[4] == 1);
+    a.b[1] = 0; a.b[2] = 0; a.b[3] = 0; a.b[4] = 1;
+    match vs::is_ok_forget(decode_key(&a.b[..9])) {
+        Some((DecodedKey::Vector(v), k)) => { assert!(k == 9 && v.len() == 1); assert!(v[0].to_bits() == x.to_bits()); core::mem::forget(v); }
+        _ => assert!(false),
+    }
+}
+}
